@@ -1,9 +1,12 @@
 (* Executable wrapper for the C01 correspondence. *)
 From Coq Require Import String List NArith ZArith QArith Bool.
 From V Require Import lib.Sexp lib.PyStr model.Retry model.PoolAcct corr.Run_C04 corr.Run_C05
-  gen.Gen_Exc gen.Gen_Urlopen gen.Gen_Retry.
+  gen.Gen_Exc gen.Gen_Urlopen gen.Gen_Retry gen.Gen_Read.
 Import ListNotations.
 Local Open Scope N_scope.
+
+(* release_conn() as the source has it *)
+Definition rc : bool := match Gen_Read.release_closes_unread with Some b => b | None => false end.
 
 Definition as_body (s : sexp) : option body_out :=
   match s with SN 0 => Some BOk | SN 1 => Some BShort | SN 2 => Some BInterrupt | _ => None end.
@@ -72,7 +75,7 @@ Fixpoint run_hist (M : nat) (B : bool) (reqs : list request) (script : list Pool
         urlopen M B LAT (getl Gen_Urlopen.urlopen_to_sslerror) (getl Gen_Urlopen.urlopen_to_protocolerror)
                 (getl Gen_Urlopen.retry_connection_error) (getl Gen_Urlopen.retry_read_error)
                 (getl Gen_Retry.retry_after_status_codes) script st rq (the_default (rq_redirect rq) (rq_retries rq)) in
-      let st2 := match h with Some hd => dispose M st1 hd (rq_disposal rq) | None => st1 end in
+      let st2 := match h with Some hd => dispose M rc st1 hd (rq_disposal rq) | None => st1 end in
       SL [s_result res; s_bool (match h with Some _ => true | None => false end); s_state st2] :: run_hist M B more script1 st2
   end.
 
